@@ -39,6 +39,12 @@ impl<'a> SectionsBuilder<'a> {
     }
 
     pub fn process_blocks(&mut self, range: Range, content: &DocumentBlocks) {
+        self.process_blocks_at(range, content, true);
+    }
+
+    // `insert`: the first block becomes the first child of the current node; otherwise it
+    // follows the current node as its next sibling
+    fn process_blocks_at(&mut self, range: Range, content: &DocumentBlocks, insert: bool) {
         // 1. append all non-header blocks until first header
         // 2. take the rest and split into sections
         // 3. call process_sections for each section
@@ -46,7 +52,7 @@ impl<'a> SectionsBuilder<'a> {
             return;
         }
 
-        self.builder.set_insert(true);
+        self.builder.set_insert(insert);
         let first_header = first_header(range.clone(), content);
         let pre_header_range = range.start..first_header.unwrap_or(range.end);
         for i in pre_header_range.clone() {
@@ -105,7 +111,21 @@ impl<'a> SectionsBuilder<'a> {
         };
 
         let id = self.builder.id();
-        self.process_blocks(rest, blocks);
+        // an item that starts with a nested list takes that list's items as its own: it may
+        // already hold blocks, and what follows continues after the last of them instead of
+        // taking their place
+        let graph = self.builder.graph();
+        let mut last_child = graph.graph_node(id).child_id();
+        while let Some(next) = last_child.and_then(|child| graph.graph_node(child).next_id()) {
+            last_child = Some(next);
+        }
+        match last_child {
+            Some(last) => {
+                self.builder.set_id(last);
+                self.process_blocks_at(rest, blocks, false);
+            }
+            None => self.process_blocks(rest, blocks),
+        }
         self.builder.set_id(id);
         // whatever follows is a sibling of this section, also when nothing was added under it
         self.builder.set_insert(false);
